@@ -49,7 +49,7 @@ theorem defaults_documented :
 /-- `set_pixel_size` takes the `rlnPixelSize` column as it is — one pixel size per row (not its first entry) -/
 theorem pixel_size_per_row_documented : Gen.C03.pixelSizeFromColumn = "self.relion_df['rlnPixelSize'].values" := by decide
 
-/-- the bodies of the 27 functions the conversion goes through (docstrings, comments, type annotations and the text of
+/-- the bodies of the 28 functions the conversion goes through (incl. the factory `Motl.load`) (docstrings, comments, type annotations and the text of
 exception / warning / log messages dropped; locals renamed by binding occurrence, discards merged — so a rename, a type
 hint or a reworded message changes nothing) are the reviewed ones: branches no generated input reaches (multi-group
 optics, numeric name cells, …) cannot change unnoticed. This is an equality of digests, not a statement about behaviour;
@@ -82,7 +82,8 @@ theorem bodies_documented :
        ("RelionMotl.create_final_output", "0dff659bac8eece3fdc6"),
        ("RelionMotl.create_relion_df", "66126693ca6c8b3baa27"),
        ("RelionMotl.write_out", "bbdd6b2a8ddc0e93ce9b"),
-       ("Motl.assign_column", "869bcbd14a2ecc04d20d")] := rfl
+       ("Motl.assign_column", "869bcbd14a2ecc04d20d"),
+       ("Motl.load", "0da0dd47b8eb310b03c0")] := rfl
 
 /-- **nothing is copied from the particle table into a RELION frame as a pandas Series** (which would be aligned on the row
 labels and pair a particle with the name / id of another row as soon as the labels are not 0..n−1 — after `remove_feature`,
@@ -559,6 +560,53 @@ theorem names_generated_v4 (dir pre : List Char) (kx ky tomo sub v : Nat) (hv : 
     rw [if_neg (by simp), p1]
     simp only [p2, Option.getD_none]
 
+/-- **generated RELION ≤ 3.1 tomogram names carry the tomogram number, with a directory and a suffix**: for every
+tomogram format `dir/ pre $x…x suf` (the documented `/path/to/tomo/$xxxx.rec`, `…/TS_$xxx_2.5.mrc`; any padding ≥ 1; no
+`$` elsewhere; `pre` digit-free; no slash after `dir/`; `suf` empty or starting with neither a digit nor `x`),
+`prepare_particles_data` produces `dir/ pre <tomo, padded> suf` and `parse_tomo_id` reads back exactly `tomo`. (Formats
+that repeat the `$x…x` sequence in the directory part, like `/p/$xxxx/$xxxx_$yy.mrc`, are NOT covered by a theorem: they are
+compared string for string with the model in the correspondence run only.) -/
+theorem tomo_name_generated_v3 (dir pre suf : List Char) (kx tomo : Nat) (hkx : 0 < kx)
+    (hpre : ∀ c ∈ pre, c.isDigit = false) (hsuf : suf = [] ∨ ∃ c t, suf = c :: t ∧ c.isDigit = false)
+    (hsufx : NotHead 'x' suf) (hslash : ∀ c ∈ pre ++ suf, c ≠ '/') (hdollar : ∀ c ∈ dir ++ pre ++ suf, c ≠ '$') :
+    ∃ name, tomoName (dir ++ '/' :: (pre ++ '$' :: (List.replicate kx 'x' ++ suf))) tomo = some name ∧
+      name = dir ++ '/' :: (pre ++ zfill kx (Nat.toDigits 10 tomo) ++ suf) ∧ parseTomo name = some tomo := by
+  have hD : ∀ c ∈ dir ++ '/' :: pre, c ≠ '$' := by
+    intro c hc
+    simp only [List.mem_append, List.mem_cons] at hc
+    rcases hc with hc | rfl | hc
+    · exact hdollar c (by simp [hc])
+    · decide
+    · exact hdollar c (by simp [hc])
+  have hS : ∀ c ∈ suf, c ≠ '$' := fun c hc => hdollar c (by simp [hc])
+  have e1 : dir ++ '/' :: (pre ++ '$' :: (List.replicate kx 'x' ++ suf))
+      = (dir ++ '/' :: pre) ++ '$' :: (List.replicate kx 'x' ++ suf) := by simp [List.append_assoc]
+  have p1 := fillFormat_shape 'x' (by decide) kx hkx (dir ++ '/' :: pre) suf tomo
+    (longestSeq_noDollar _ _ hD) (longestSeq_noDollar _ _ hS) hsufx
+  have e2 : (dir ++ '/' :: pre) ++ zfill kx (Nat.toDigits 10 tomo) ++ suf
+      = dir ++ '/' :: (pre ++ zfill kx (Nat.toDigits 10 tomo) ++ suf) := by simp [List.append_assoc]
+  refine ⟨dir ++ '/' :: (pre ++ zfill kx (Nat.toDigits 10 tomo) ++ suf), ?_, rfl, ?_⟩
+  · unfold tomoName
+    rw [if_neg (by simp), e1, p1, e2]
+  · have hdig : ∀ c ∈ zfill kx (Nat.toDigits 10 tomo), c ≠ '/' := by
+      intro c hc e
+      have := zfill_allDigits kx _ (toDigits_allDigits tomo) c hc
+      rw [e] at this; exact absurd this (by decide)
+    have hlc : lastComponent (dir ++ '/' :: (pre ++ zfill kx (Nat.toDigits 10 tomo) ++ suf))
+        = pre ++ zfill kx (Nat.toDigits 10 tomo) ++ suf := by
+      apply lastComponent_dir
+      intro c hc
+      simp only [List.mem_append] at hc hslash
+      rcases hc with (hc | hc) | hc
+      · exact hslash c (Or.inl hc)
+      · exact hdig c hc
+      · exact hslash c (Or.inr hc)
+    obtain ⟨more, hn⟩ := numbers_one pre (zfill kx (Nat.toDigits 10 tomo)) suf hpre
+      (zfill_ne_nil _ _ Nat.toDigits_ne_nil) (zfill_allDigits _ _ (toDigits_allDigits _)) hsuf
+    rw [decode_zfill_toDigits] at hn
+    show (numbers (lastComponent (dir ++ '/' :: (pre ++ zfill kx (Nat.toDigits 10 tomo) ++ suf))))[Gen.C03.tomoNumberIndex]? = some tomo
+    rw [hlc, hn]; rfl
+
 /-! ### fallback tomogram number, class, geom3, uniqueness of ids -/
 
 /-- `parse_tomo_id`, `elif` branch (no tomogram-name column): for version ≤ 3.1 the last path component of the
@@ -906,6 +954,9 @@ example : sniffVersion ["rlnCoordinateX", "rlnTomoParticleName"] = 40 ∧ sniffV
 example : Sep ['_'] := ⟨by decide, by decide⟩
 example : NotHead 'x' ['_'] ∧ NotHead 'y' ['_', '2', '.', '5', 'A'] :=
   ⟨Or.inr ⟨'_', [], rfl, by decide⟩, Or.inr ⟨'_', _, rfl, by decide⟩⟩
+example : tomoName "/path/to/tomo/TS_$xxxx.rec".toList 5 = some "/path/to/tomo/TS_0005.rec".toList ∧
+    parseTomo "/path/to/tomo/TS_0005.rec".toList = some 5 ∧ NotHead 'x' ".rec".toList := by
+  refine ⟨by decide, by decide, Or.inr ⟨'.', _, rfl, by decide⟩⟩
 example : subName "/p/$xxx_$yyyy_2.5A.mrc".toList 12 8 = some "/p/012_0008_2.5A.mrc".toList ∧
     parseTomo "/p/012_0008_2.5A.mrc".toList = some 12 ∧ parseSub 31 "/p/012_0008_2.5A.mrc".toList = some 8 ∧
     subName "TS_$xx/$y".toList 5 123 = some "TS_05/123".toList ∧ parseSub 40 "TS_05/123".toList = some 123 ∧
